@@ -121,6 +121,9 @@ fn run_variant(
 
 pub fn run(ctx: &Ctx) -> Report {
     crate::env::set_log_mode(crate::env::LOG_OFF);
+    // this property's statement says nothing about the key provider: judge outcomes only
+    crate::e2e::set_judge_provider(false);
+    crate::e2e::set_judge_kind(false);
     let thorough = ctx.tier.thorough();
     let cts = content_types();
     let n_ct = cts.len() as u64;
